@@ -25,6 +25,9 @@ if PYMC_GT_516:
         @classmethod
         def rng_fn(cls, rng, a, b, size):
             _fac = np.log(b) - np.log(a)
+            if size is None:
+                # one independent draw per element of (array-valued) bounds
+                size = np.broadcast_shapes(np.shape(a), np.shape(b))
             uu = rng.uniform(size=size)
             return np.exp(uu * _fac + np.log(a))
 
@@ -71,6 +74,9 @@ else:  # old behavior
         @classmethod
         def rng_fn(cls, rng, a, b, size):
             _fac = np.log(b) - np.log(a)
+            if size is None:
+                # one independent draw per element of (array-valued) bounds
+                size = np.broadcast_shapes(np.shape(a), np.shape(b))
             uu = rng.uniform(size=size)
             return np.exp(uu * _fac + np.log(a))
 
